@@ -43,8 +43,11 @@ def C(kind, src, spec):
     return {"op": "copy", "kind": kind, "src": src, "spec": spec}
 
 
-def X(what, lst=""):
-    return {"op": "delete", "what": what, "list": lst}
+def X(what, lst="", more=None):
+    d = {"op": "delete", "what": what, "list": lst}
+    if more:
+        d["more"] = [list(m) for m in more]
+    return d
 
 
 def M(kind, n, i=0):
@@ -118,6 +121,10 @@ def alphabet(kinds=None):
     for k in ks:
         ops += [X(k, "1"), X(k, "2-3"), X(k, "")]
     ops += [X("cells", "1"), X("cells", "2-3"), X("cells", "1 3"), X("all"), X("cells", "-1")]
+    # several option lines in one DELETE block, cell-wise and kind-wise mixed, in both orders
+    k0 = ks[0]
+    ops += [X("cells", "3", [(k0, "")]), X(k0, "", [("cells", "3")]), X("cells", "", [(k0, "2")]), X(k0, "2", [("cells", "")]),
+            X(k0, "1", [(ks[-1], "2-3")])]
     for k in ks:
         for i in range(len(S.MODIFY.get(k, []))):
             ops += [M(k, 2, i), M(k, 3, i)]
@@ -171,7 +178,7 @@ def opclass(op):
     if o in ("def", "copy", "modify", "mix"):
         return "%s:%s" % (o, op["kind"])
     if o == "delete":
-        return "delete:%s%s" % (op["what"], "" if op["what"] == "all" or op["list"].strip() else ":whole-kind")
+        return "delete:%s%s%s" % (op["what"], "" if op["what"] == "all" or op["list"].strip() else ":whole-kind", "+more" if op.get("more") else "")
     if o == "combo":
         return "combo:%s" % op["name"]
     if o == "failing":
